@@ -19,10 +19,11 @@ class Unit:
         {'impl': <implrun case>, 'model': <coq term : list Z> | None, 'spec': <coq term : list Z> | None,
          'label': str, 'nontrivial': bool}
     """
-    def __init__(self, name, theorems, proof_files, needs, cases=None, imports=''):
+    def __init__(self, name, theorems, proof_files, needs, cases=None, imports='', spec_imports=None):
         self.name, self.theorems, self.proof_files, self.needs = name, theorems, proof_files, needs
         self.cases = cases
         self.imports = imports
+        self.spec_imports = spec_imports
 
 
 def run_impl(cases, tag):
@@ -52,7 +53,11 @@ def run_check(pid, units, tier, seed, props_file=None, default_imports='', level
     with C.Lock():
         ok_gen, index, genlog = C.regenerate()
         bad = C.forbidden_scan()
-        targets = [f'theories/Props/{props_file}.vo']
+        targets = [f'theories/Props/{props_file}.vo', 'theories/Lib/Enc.vo']
+        for sub in ('Corr', 'Spec'):
+            dd = os.path.join(C.COQ, 'theories', sub)
+            if os.path.isdir(dd):
+                targets += [f'theories/{sub}/{f[:-2]}.vo' for f in sorted(os.listdir(dd)) if f.endswith('.v')]
         ok_make, makelog, dt_make = C.make(targets)
         ok_props, assumptions, plog, thm_names = (False, {}, '', [])
         if ok_make and not bad:
@@ -121,8 +126,7 @@ def run_check(pid, units, tier, seed, props_file=None, default_imports='', level
         mterms = [c['model'] for c in cases]
         sterms = [c['spec'] for c in cases]
         mres = C.coq_eval([t for t in mterms if t], imports, f'{pid}_{u.name}_m') if (model_ok and any(mterms)) else None
-        sres = C.coq_eval([t for t in sterms if t], imports.replace('From Gen Require Import', '(* no Gen *) From Gen Require Import')
-                          if False else imports, f'{pid}_{u.name}_s') if any(sterms) else None
+        sres = C.coq_eval([t for t in sterms if t], u.spec_imports or imports, f'{pid}_{u.name}_s') if any(sterms) else None
         mi = si = 0
         for c, ir in zip(cases, impl):
             corr['cases'] += 1
